@@ -121,7 +121,59 @@ def recompute_shape(ctx, r):
         if ok:
             ok = any(l[0] == "call" and (l[1].endswith("::len") or l[1].endswith("::count")) for l in srcs[uniq[0]]) and \
                 any(l[0] == "call" and l[1].endswith("::sum") for l in srcs[byts[0]])
+        if ok:
+            # distinct blobs are told apart by their hash: the container whose size is the distinct count is keyed by
+            # the hash type, or a list sorted and de-duplicated by the same hash component
+            why = _distinct_by_hash(ctx, b, sl, srcs[uniq[0]])
+            r.check(why is not None, "recompute-distinct", b,
+                    "%s counts distinct blobs by hash (%s)" % (p, why),
+                    "%s does not establish distinctness by hash: the value whose length is the distinct-blob count is "
+                    "neither a map/set keyed by the hash type nor a list sorted and de-duplicated on the same hash "
+                    "component - a blob can be counted twice (or two blobs once)" % p)
         r.check(ok, "recompute-shape", b,
                 "%s derives the counters from one pass over the key map (distinct count, sum of sizes)" % p,
                 "%s does not derive both counters from the key map (%s)" % (
                     p, {k: sorted(fmt_leaf(l) for l in v) for k, v in srcs.items()}))
+
+
+def _distinct_by_hash(ctx, b, sl, leaves):
+    prog = ctx.prog
+    hash_ty = ctx.anchors.get("HASH")
+    from ..core import Site
+    for l in leaves:
+        if not (l[0] == "call" and (l[1].endswith("::len") or l[1].endswith("::count"))):
+            continue
+        t = b.blocks[l[2]]["term"]
+        pl = place_of(t["args"][0])
+        if pl is None:
+            continue
+        cont = ctx.world.borrowed_local(b, t["args"][0])
+        cty = prog.types[prog.strip_refs(b.locals[cont])] if cont is not None else prog.types[
+            prog.strip_refs(ctx.world._place_ty(b, pl))]
+        d = cty.get("def")
+        args = [a for a in cty.get("args", []) if isinstance(a, int)]
+        if d in ("std::collections::HashMap", "std::collections::HashSet", "std::collections::BTreeMap",
+                 "std::collections::BTreeSet") and args and prog.adt_of(args[0])[0] == hash_ty:
+            return "size of a %s keyed by the hash" % d.split("::")[-1]
+        if d == "std::vec::Vec" and cont is not None:
+            # sort_*_by_key(k1) ... dedup_by_key(k2) on this very vector, k1 and k2 projecting the same hash component
+            comps = {}
+            for s in b.calls():
+                nm = (s.path or "").split("::")[-1]
+                if nm not in ("sort_by_key", "sort_unstable_by_key", "sort_by_cached_key", "dedup_by_key"):
+                    continue
+                if ctx.world.borrowed_local(b, s.term["args"][0]) != cont:
+                    continue
+                for tgt, how in prog.call_targets(s):
+                    if how != "extern-cb":
+                        continue
+                    csl = Slicer(ctx.world, tgt)
+                    rl = csl.leaves_of_place({"l": 0, "p": []})
+                    if len(rl) == 1 and list(rl)[0][0] == "param":
+                        comp = tuple(x for x in list(rl)[0][2] if x.startswith("#"))
+                        is_hash = prog.adt_of(tgt.locals[0])[0] == hash_ty
+                        comps.setdefault("dedup" if nm == "dedup_by_key" else "sort", set()).add((comp, is_hash))
+            if comps.get("sort") and comps.get("dedup") and comps["sort"] == comps["dedup"] and \
+                    all(h for (_, h) in comps["sort"]):
+                return "list sorted and de-duplicated on the same hash component"
+    return None
